@@ -493,8 +493,93 @@ def run_sequence(case, want):
                   'counters': {'sequences_ending_classified': 1}}
 
 
+# ----------------------------------------------------------- kind 'long'
+# One short motif (storms and rises with contention) at a given position of
+# an otherwise quiet record of n steps: whatever the code does in blocks,
+# windows or chunks of up to n steps must not show at any position.
+
+MOTIFS = [
+    # (rain symbols, increment symbols) over 3 steps; 2 = above threshold
+    ((2, 2, 0), (2, 2, 0)),      # one storm, one rise, two steps
+    ((2, 0, 2), (2, 2, 2)),      # two storms under one rise
+    ((2, 2, 2), (2, 0, 2)),      # one storm under two rises
+]
+_LONG = {}
+
+
+def long_positions(n, around=None):
+    if around is None:
+        return list(range(0, n - 4))
+    out = set()
+    for base in around:
+        for m in range(base, n, base):
+            out.update(q for q in range(m - 4, m + 2) if 0 <= q < n - 4)
+    return sorted(out)
+
+
+def long_space(n, combo, around=None):
+    positions = long_positions(n, around)
+
+    def decode(i):
+        return {'kind': 'long', 'n': n, 'combo': list(combo),
+                'pos': positions[i // len(MOTIFS)],
+                'motif': i % len(MOTIFS)}
+    return Space(
+        'load+classify/one motif in a quiet record of %d steps/dt=%d/%s'
+        % (n, combo[0], 'every position' if around is None else
+           'positions within 4 steps of the multiples of %s'
+           % ' and '.join(map(str, around))),
+        len(positions) * len(MOTIFS), decode,
+        '3 motifs (storm+rise; two storms under one rise; one storm under '
+        'two rises)', decoy_every=256)
+
+
+def run_long(case, want):
+    n = case['n']
+    dt, s, j = case['combo'][:3]
+    unit = float(j) * (dt / 3600.)
+    key = (n, dt, s, j)
+    if _LONG.get('key') != key:
+        base_level = [-unit * k for k in range(n)]
+        connection = records.new_loaded([0.0] * n, base_level, dt)
+        _LONG.clear()
+        _LONG.update(key=key, bytes=connection.serialize(),
+                     epochs=[r[0] for r in connection.execute(
+                         'SELECT epoch FROM grid_time ORDER BY epoch')],
+                     levels=base_level)
+        connection.close()
+    connection = sqlite3.connect(':memory:')
+    connection.deserialize(_LONG['bytes'])
+    epochs = _LONG['epochs']
+    rain_sym, inc_sym = MOTIFS[case['motif']]
+    p = case['pos']
+    z = _LONG['levels'][p]
+    for k in range(3):
+        connection.execute(
+            'UPDATE rainfall_intensity SET rainfall_intensity_mm_h = ? '
+            'WHERE from_epoch = ?',
+            ((0.0, s, 2 * s)[rain_sym[k]], epochs[p + k]))
+        z += (-unit, unit, 2 * unit)[inc_sym[k]]
+        connection.execute('UPDATE water_level SET zeta_mm = ? WHERE '
+                           'epoch = ?', (z, epochs[p + k + 1]))
+    connection.commit()
+    try:
+        viol, info = _classify_and_compare(
+            connection, s, j, want,
+            lambda: classify_loaded(connection, s, j))
+    finally:
+        connection.close()
+    info['outcome'] = 'motif %d: %s' % (
+        case['motif'], 'as the reference' if not any(viol.values())
+        else 'differs')
+    info['obs'] = {'pairs': info.get('obs', {}).get('pairs')}
+    return viol, info
+
+
 def run_case_for(case, want):
     kind = case['kind']
+    if kind == 'long':
+        return run_long(case, want)
     if kind == 'fn':
         viol, info = run_fn(case, want)
     elif kind == 'db':
